@@ -17,6 +17,7 @@ import (
 const repoModule = "github.com/go-python/gpython"
 
 type World struct {
+	mutParams map[*ssa.Function]map[int]bool // see mutatedParams
 	Repo     string
 	Verif    string
 	Prog     *ssa.Program
